@@ -40,7 +40,14 @@ import (
 	"elaverif/harness/hx"
 
 	"github.com/elastos/Elastos.ELA/account"
+	"github.com/elastos/Elastos.ELA/common"
+	"github.com/elastos/Elastos.ELA/core/contract/program"
+	"github.com/elastos/Elastos.ELA/core/transaction"
+	common2 "github.com/elastos/Elastos.ELA/core/types/common"
+	"github.com/elastos/Elastos.ELA/core/types/functions"
+	"github.com/elastos/Elastos.ELA/core/types/payload"
 	"github.com/elastos/Elastos.ELA/crypto"
+	dposaccount "github.com/elastos/Elastos.ELA/dpos/account"
 )
 
 func seedOf(s string) int64 {
@@ -175,7 +182,19 @@ func exec(t []string) string {
 				return "error"
 			}
 		default:
-			panic("harness: unknown noentropy target " + t[1])
+			// any other producer: a panic on the way also means no secret came out
+			ok := func() (ok bool) {
+				defer func() {
+					if recover() != nil {
+						ok = false
+					}
+				}()
+				out, err := produce(t[1])
+				return err == nil && len(out) > 0
+			}()
+			if !ok {
+				return "error"
+			}
 		}
 		return "produced"
 	case "entropy":
@@ -305,6 +324,86 @@ func produce(what string) ([]byte, error) {
 		iv, _ := c.LoadStoredData("IV")
 		mk, _ := c.LoadStoredData("MasterKey")
 		return append(iv, mk...), nil
+	case "newaccount": // account.NewAccount: a fresh private key
+		a, err := account.NewAccount()
+		if err != nil {
+			return nil, err
+		}
+		return a.PrivateKey, nil
+	case "walletcreate": // account.Create (what `ela-cli wallet create` calls): keystore IV + master key + main account key
+		ksSeq++
+		p := filepath.Join(tmp(), fmt.Sprintf("keystore%d.dat", ksSeq))
+		os.Remove(p)
+		c, err := account.Create(p, []byte("pw"))
+		if err != nil {
+			return nil, err
+		}
+		iv, _ := c.LoadStoredData("IV")
+		return append(iv, c.GetMainAccount().PrivateKey...), nil
+	case "walletadd": // Client.CreateAccount on an existing keystore (`wallet add`): a fresh key next to a fixed main account
+		ksSeq++
+		p := filepath.Join(tmp(), fmt.Sprintf("keystore%d.dat", ksSeq))
+		os.Remove(p)
+		main, err := account.NewAccountWithPrivateKey(key[:])
+		if err != nil {
+			return nil, err
+		}
+		c, err := account.CreateFromAccount(p, []byte("pw"), main)
+		if err != nil {
+			return nil, err
+		}
+		a, err := c.CreateAccount()
+		if err != nil {
+			return nil, err
+		}
+		return a.PrivateKey, nil
+	case "accountsign": // account.Account.Sign
+		a, err := account.NewAccountWithPrivateKey(key[:])
+		if err != nil {
+			return nil, err
+		}
+		sig, err := a.Sign([]byte("same message"))
+		if err != nil {
+			return nil, err
+		}
+		return sig[:32], nil
+	case "txsign": // account.SignStandardTransaction: the wallet's transaction signature
+		a, err := account.NewAccountWithPrivateKey(key[:])
+		if err != nil {
+			return nil, err
+		}
+		txn := functions.CreateTransaction(common2.TxVersion09, common2.TransferAsset, 0, &payload.TransferAsset{}, nil,
+			[]*common2.Input{{Previous: common2.OutPoint{Index: 1}}}, nil, 0, nil)
+		pg, err := account.SignStandardTransaction(txn, &program.Program{Code: a.RedeemScript},
+			map[common.Uint160]*account.Account{a.ProgramHash.ToCodeHash(): a})
+		if err != nil {
+			return nil, err
+		}
+		return pg.Parameter[1:33], nil
+	case "dposproposal", "dposvote", "dpossign", "dpostx": // dpos/account: the arbiter's consensus signatures
+		a, err := account.NewAccountWithPrivateKey(key[:])
+		if err != nil {
+			return nil, err
+		}
+		da := dposaccount.New(a)
+		var sig []byte
+		switch what {
+		case "dposproposal":
+			sig, err = da.SignProposal(&payload.DPOSProposal{Sponsor: da.PublicKeyBytes(), ViewOffset: 1})
+		case "dposvote":
+			sig, err = da.SignVote(&payload.DPOSProposalVote{Signer: da.PublicKeyBytes(), Accept: true})
+		case "dpossign":
+			if sig = da.Sign([]byte("same message")); sig == nil {
+				err = errors.New("dAccount.Sign returned nil")
+			}
+		case "dpostx":
+			sig, err = da.SignTx(functions.CreateTransaction(common2.TxVersion09, common2.TransferAsset, 0, &payload.TransferAsset{}, nil,
+				[]*common2.Input{{Previous: common2.OutPoint{Index: 2}}}, nil, 0, nil))
+		}
+		if err != nil {
+			return nil, err
+		}
+		return sig[:32], nil
 	}
 	panic("harness: unknown producer " + what)
 }
@@ -315,7 +414,12 @@ func ecdsaPub(priv []byte) *crypto.PublicKey {
 }
 
 // minimum number of bytes of the OS source one use must consume
-var minEntropy = map[string]int{"nonce": 32, "keygen": 32, "ecdsa": 32, "ecies": 48, "keystore": 48}
+var minEntropy = map[string]int{"nonce": 32, "keygen": 32, "ecdsa": 32, "ecies": 48, "keystore": 48,
+	"newaccount": 32, "walletcreate": 80, "walletadd": 80, "accountsign": 32, "txsign": 32,
+	"dposproposal": 32, "dposvote": 32, "dpossign": 32, "dpostx": 32}
+
+var producers = []string{"nonce", "keygen", "ecdsa", "ecies", "keystore", "newaccount", "walletcreate", "walletadd",
+	"accountsign", "txsign", "dposproposal", "dposvote", "dpossign", "dpostx"}
 
 // entropyOp: (1) with crypto/rand.Reader replaced by a constant stream, two uses (separated in time and by a
 // re-seeding of the global math/rand generator) must produce the same secret, and a different stream a different
@@ -404,8 +508,11 @@ func gen(g *hx.Gen) {
 	for _, w := range []string{"nonce", "keygen", "ecdsa", "keystore"} {
 		g.Emit("noentropy %s", w)
 	}
-	for _, w := range []string{"nonce", "keygen", "ecdsa", "ecies", "keystore"} {
+	for _, w := range producers {
 		g.Emit("entropy %s", w)
+	}
+	for _, w := range producers[5:] {
+		g.Emit("noentropy %s", w)
 	}
 	for i := 0; i < g.N(1, 3); i++ {
 		g.Emit("keystore %d", i)
@@ -416,6 +523,7 @@ func gen(g *hx.Gen) {
 }
 
 func main() {
+	functions.CreateTransaction = transaction.CreateTransaction
 	hx.Main(&hx.Prop{Name: "C38", Gen: gen, Exec: exec, Oracle: oracle,
 		Nontrivial: func(t []string, out string) bool { return true }})
 }
